@@ -153,6 +153,10 @@ def tables_and_cursor(rep, idx, spec, table, obj, named):
     for what, needle in ((f"table store self.{table}[...]", f"self.{table}["), ("cursor update", "self._next_addr =")):
         nodes = [n.id for n in g.nodes if n.kind == "stmt" and fg.text(n.id).startswith(needle)]
         ok = bool(ins_nodes) and bool(nodes) and all(any(x in pdom.get(i, ()) for x in nodes) for i in ins_nodes)
+        if not ok and ins_nodes and nodes:
+            # ... or precede it on every path (the same updates in another order; a raise in between is C02.1's business)
+            dom = g.dominators()
+            ok = all(any(x in dom.get(i, ()) for x in nodes) for i in ins_nodes)
         rep.check(ok, "C02.4", site, f"{what} happens on every path that inserts", "some path inserts the range without it")
     # the returned tuple reports the same range
     rets = [c.norm(v) for v, gen, ln in c.t.returns]
